@@ -946,6 +946,10 @@ static size_t ZDICT_addEntropyTablesFromBuffer_advanced(
     U32 const notificationLevel = params.notificationLevel;
     size_t hSize = 8;
 
+    /* the magic number and the dictID must fit, and the content lies at the end of the buffer */
+    if (dictBufferCapacity < hSize) return ERROR(dstSize_tooSmall);
+    if (dictContentSize > dictBufferCapacity) return ERROR(srcSize_wrong);
+
     /* calculate entropy tables */
     DISPLAYLEVEL(2, "\r%70s\r", "");   /* clean display line */
     DISPLAYLEVEL(2, "statistics ... \n");
